@@ -121,6 +121,15 @@ def vfeOp (arch name : String) (args : List String) : M Resp := do
   | "mul", 8 => do
     let v ← lanes4 args
     ok (zipWith4 fmul (v.take 4) (v.drop 4))
+  | "mul_negate_lazy", 8 => do
+    -- `(&x * &y).negate_lazy()`: the unreduced product fed straight into negate_lazy (as the point formulas do)
+    let v ← lanes4 args
+    ok (zipWith4 (fun a b => fneg (fmul a b)) (v.take 4) (v.drop 4))
+  | "mul_diff_sum", 8 => do
+    let v ← lanes4 args
+    match List.zipWith fmul (v.take 4) (v.drop 4) with
+    | [a, b, c, d] => ok [feOut (fsub b a), feOut (fadd a b), feOut (fsub d c), feOut (fadd c d)]
+    | _ => badreq
   | "add", 8 => do
     let v ← lanes4 args
     ok (zipWith4 fadd (v.take 4) (v.drop 4))
@@ -720,7 +729,7 @@ def handleOp (legacy : Bool) (op : String) (args : List String) : M Resp := do
   | ["vfe", arch, name] => vfeOp arch name args
   | ["vfel", arch, name] =>
     -- same operations on lanes given as raw (possibly unreduced) limbs: value-level specification
-    let nl := if name == "mul" || name == "add" || name == "sub" || name == "blend" then 8 else 4
+    let nl := if name == "mul" || name == "add" || name == "sub" || name == "blend" || name == "mul_negate_lazy" || name == "mul_diff_sum" then 8 else 4
     if args.length < nl then badreq else
     vfeOp arch name (← limbLanesToHex nl args)
   | ["ed", "mul_raw_limbs"] | ["ed", "direct", _, "mul_limbs"] =>
